@@ -67,6 +67,11 @@ def _as_int(x):
         c = x.const_value()
         if c.denominator == 1:
             return int(c)
+        raise PyRaise("TypeError", f"{c} cannot be interpreted as an integer")
+    if x is None or isinstance(x, (str, dict, tuple, list)) or type(x).__name__ in ("Builtin", "ClassRef", "Func", "Bound", "Obj", "LU", "LUPart"):
+        raise PyRaise("TypeError", f"{x!r} cannot be interpreted as an integer")
+    if type(x).__name__ == "NDArr" and x.size == 1:
+        return _as_int(x.flat()[0])
     raise Unsupported(f"integer expected, got {x!r}")
 
 
@@ -94,11 +99,68 @@ def _budget(*pairs):
         raise TooLarge(f"evaluation outgrew its work budget ({WORK[0]} term products)")
 
 
+def poly_div_exact(f, g):
+    """q with f = q g for polynomials in plain symbols, or None (not divisible / other atoms involved).  Lexicographic division: exact
+    divisibility shows as the leading term of every remainder being divisible by the leading term of g"""
+    if not g.t or len(f.t) < len(g.t):
+        return None
+    atoms = sorted({a for p_ in (f, g) for m in p_.t for a, _e in m})
+    if any(F.atom_desc(a)[0] not in ("s", "fn") or a == F.I_ATOM for a in atoms):
+        return None
+    idx = {a: i for i, a in enumerate(atoms)}
+    n = len(atoms)
+
+    def vecs(p_):
+        out = {}
+        for m, c in p_.t.items():
+            v = [0] * n
+            for a, e in m:
+                v[idx[a]] = e
+            out[tuple(v)] = c
+        return out
+    G, Rm = vecs(g), vecs(f)
+    lg = max(G)
+    cg = G[lg]
+    Q = {}
+    for _ in range(4000):
+        if not Rm:
+            return F.Poly({tuple((atoms[i], e) for i, e in enumerate(v) if e): c for v, c in Q.items()})
+        lr = max(Rm)
+        t = tuple(x - y for x, y in zip(lr, lg))
+        if min(t, default=0) < 0:
+            return None
+        c = Rm[lr] / cg
+        Q[t] = Q.get(t, 0) + c
+        for mg, cm in G.items():
+            k = tuple(x + y for x, y in zip(t, mg))
+            v = Rm.get(k, 0) - c * cm
+            if v:
+                Rm[k] = v
+            else:
+                Rm.pop(k, None)
+    return None
+
+
 def _guarded(op, a, b):
-    """Rat arithmetic with a size check before every polynomial product"""
+    """Rat arithmetic with a size check before every polynomial product.  Sums of fractions whose denominators divide one another
+    (x/P + y/(3 P^2): the code divides repeatedly by the same polynomial) are formed over the larger denominator - e2_formula.Rat would
+    multiply the denominators, and without cancellation of common factors that is what makes formulas explode"""
     if op in ("+", "-"):
-        if not (a.d == b.d):
-            _budget((a.n, b.d), (b.n, a.d), (a.d, b.d))
+        if a.d == b.d:
+            return a + b if op == "+" else a - b
+        if len(a.d.t) > 1 or len(b.d.t) > 1:
+            big, small, swap = (b, a, False) if len(b.d.t) >= len(a.d.t) else (a, b, True)
+            q = poly_div_exact(big.d, small.d)
+            if q is None and len(a.d.t) == len(b.d.t):
+                big, small, swap = small, big, not swap
+                q = poly_div_exact(big.d, small.d)
+            if q is not None:
+                _budget((small.n, q))
+                sn = small.n * q
+                if op == "+":
+                    return Rat(big.n + sn, big.d)
+                return Rat(sn - big.n, big.d) if not swap else Rat(big.n - sn, big.d)
+        _budget((a.n, b.d), (b.n, a.d), (a.d, b.d))
         return a + b if op == "+" else a - b
     if op == "*":
         _budget((a.n, b.n), (a.d, b.d))
@@ -368,10 +430,10 @@ class NDArr:
             k = shape.index(-1)
             rest = _prod([s for s in shape if s != -1])
             if rest == 0 or self.size % rest:
-                raise Unsupported("reshape")
+                raise PyRaise("ValueError", f"cannot reshape array of size {self.size} into shape {tuple(shape)}")
             shape[k] = self.size // rest
-        if _prod(shape) != self.size:
-            raise Unsupported("reshape: size mismatch")
+        if any(s < 0 for s in shape) or _prod(shape) != self.size:
+            raise PyRaise("ValueError", f"cannot reshape array of size {self.size} into shape {tuple(shape)}")
         return NDArr(self.st, shape, list(self.ix))
 
     def index(self, key):
@@ -572,9 +634,16 @@ def ew_bin(op, a, b):
     return NDArr.new(shape, [_e_bin(op, x, y) for x, y in zip(ea, eb)])
 
 
+_DIVZERO = [0]
+
+
 def _e_bin(op, x, y):
     if isinstance(x, Und) or isinstance(y, Und):
         return x if isinstance(x, Und) else y
+    if op == "/" and not isinstance(y, bool) and is_num(y) and R(y).is_zero():
+        # numpy arrays do not raise: the entry becomes inf / nan (a value of its own that never equals a documented one)
+        _DIVZERO[0] += 1
+        return F.sym(f"divzero{_DIVZERO[0]}")
     return s_bin(op, x, y)
 
 
@@ -646,8 +715,10 @@ def clear_denominators(entries):
 
 
 def inverse(a):
-    if not isinstance(a, NDArr) or a.ndim != 2 or a.shape[0] != a.shape[1]:
-        raise Unsupported("inverse of a non-square array")
+    if not isinstance(a, NDArr):
+        raise Unsupported("inverse of a non-array")
+    if a.ndim != 2 or a.shape[0] != a.shape[1]:
+        raise PyRaise("ValueError", "expected a square matrix")
     n = a.shape[0]
     L, ents = clear_denominators(a.flat())
     if not all(e.d.is_const() for e in ents):
@@ -1394,6 +1465,8 @@ class Interp:
                         raise Unsupported("dictionary changed under an undecided test")
                     return _m(_v, a, k)
                 return Builtin("dict." + name, dmeth)
+            if not hasattr(dict, name):
+                raise PyRaise("AttributeError", f"'dict' object has no attribute '{name}'")
             raise Unsupported(f"dict.{name}")
         if isinstance(v, list):
             if name in ("append", "extend"):
@@ -1404,6 +1477,8 @@ class Interp:
                 return Builtin("list." + name, lmeth)
             if name == "index":
                 return Builtin("list.index", lambda it, a, k, _v=v: [_hashable(x) for x in _v].index(_hashable(a[0])))
+            if not hasattr(list, name):
+                raise PyRaise("AttributeError", f"'list' object has no attribute '{name}'")
             raise Unsupported(f"list.{name}")
         if isinstance(v, tuple):
             if name in getattr(v, "_fields", ()):
@@ -1414,6 +1489,8 @@ class Interp:
                 return Builtin("namedtuple._asdict", lambda it, a, k, _v=v: dict(_v._asdict()))
             if name == "index":
                 return Builtin("tuple.index", lambda it, a, k, _v=v: [_hashable(x) for x in _v].index(_hashable(a[0])))
+            if not hasattr(tuple, name):
+                raise PyRaise("AttributeError", f"'tuple' object has no attribute '{name}'")
             raise Unsupported(f"tuple.{name}")
         if isinstance(v, str):
             if name in ("format", "join", "strip", "lstrip", "rstrip", "lower", "upper", "replace", "startswith", "endswith", "split", "title"):
@@ -2207,6 +2284,8 @@ class Interp:
             v = self.eval(k.value, frame)
             if k.arg is None:
                 if not isinstance(v, dict):
+                    if v is None or isinstance(v, (NDArr, Rat, int, str, list, tuple)):
+                        raise PyRaise("TypeError", "argument after ** must be a mapping")
                     raise Unsupported("** of a non-dictionary")
                 for kk, vv in v.items():
                     kwargs[kk] = vv
@@ -2272,7 +2351,7 @@ def to_array(v):
         return NDArr.new((len(items),), items)
     if is_num(v) or isinstance(v, bool):
         return NDArr.new((), [v])
-    if v is None or isinstance(v, (dict, Obj)) or (isinstance(v, Opaque) and v.inert):
+    if v is None or isinstance(v, (dict, Obj, Builtin, ClassRef, Func, Bound)) or (isinstance(v, Opaque) and v.inert):
         raise PyRaise("TypeError", f"a numeric array is expected, got {v!r}")
     raise Unsupported(f"array from {type(v).__name__}")
 
@@ -2672,7 +2751,7 @@ def _np_asarray(it, a, k):
 
 
 def _np_arange(it, a, k):
-    vals = list(range(*[_as_int(x) for x in a]))
+    vals = list(range(*[_as_int(x) for x in a[:3]]))          # a fourth positional argument is the dtype
     return NDArr.new((len(vals),), vals)
 
 
@@ -2872,7 +2951,10 @@ def _arr_all(it, v, a, k):
 
 
 def _arr_reshape(it, v, a, k):
-    sh = a[0] if len(a) == 1 and isinstance(a[0], (tuple, list)) else a
+    if a and isinstance(a[0], (tuple, list)):
+        sh = a[0]                                                # reshape(shape[, order])
+    else:
+        sh = [x for x in a if not isinstance(x, str)]            # reshape(n, m, ...) - a trailing string is the order
     return v.reshape([_as_int(x) for x in sh])
 
 
@@ -3139,6 +3221,8 @@ def _b_isinstance(it, a, k):
             res = res or isinstance(v, Rat)
         elif isinstance(c, ClassRef):
             res = res or (isinstance(v, Obj) and v.cls is not None and any(x.node is c.node for x in v.cls.mro(it)))
+        elif c is None or isinstance(c, (NDArr, Rat, int, str, dict, list, Obj)):
+            raise PyRaise("TypeError", "isinstance() arg 2 must be a type, a tuple of types, or a union")
         else:
             raise Unsupported(f"isinstance(..., {nm})")
     return res
